@@ -21,7 +21,7 @@ func init() {
 		Run: ruleRevert,
 	})
 	register(&Rule{
-		ID: "INDEX-FAMILIES", Props: []string{"C04", "C08"}, Floor: 10,
+		ID: "INDEX-FAMILIES", Props: []string{"C03", "C04", "C08"}, Floor: 10,
 		Doc: "every successful modify/delete updates the revision index and runs reindex over all secondary indexers; deletes go to both graveyard indexes, with the deletion's revision, exactly under the transaction's own delete-tracker test; an insert of a new key cleans both graveyard indexes; the collector removes from the graveyard only what its deletion-revision delete confirmed",
 		Run: ruleIndexFamilies,
 	})
@@ -710,17 +710,26 @@ func ruleIndexFamilies(c *Ctx, r *Reporter) {
 			g2 := find("delete", posGraveyardRev)
 			ok := len(g1) == 1 && len(g2) == 1 && g1[0].call.Block() == g2[0].call.Block()
 			if ok {
-				// under `existed` of a graveyard get
+				// under `existed` of a graveyard get, and under nothing else than "the key is new"
 				ok = false
+				extra := false
 				for _, f := range factsAt(g1[0].call.Block()) {
 					if ex, isEx := f.Cond.(*ssa.Extract); isEx && f.Val {
 						if call, ok2 := ex.Tuple.(*ssa.Call); ok2 && call.Call.IsInvoke() && call.Call.Method.Name() == "get" {
 							ok = true
 						}
 					}
+					if call, isCall := f.Cond.(*ssa.Call); isCall {
+						if sf := staticCallee(call); sf != nil && sf.Name() == "hasDeleteTrackers" {
+							extra = true // the stale entry must go even when no iterator is open right now
+						}
+					}
+				}
+				if extra {
+					ok = false
 				}
 			}
-			r.checkP([]string{"C08", "C04"}, ok, fnn+"|re-insert cleans both graveyard indexes", c.posStr(fn.Pos()), "inserting a key found in the graveyard deletes it from the graveyard and the graveyard-revision index together", "re-inserting a deleted key does not clean both graveyard indexes together: a stale retained deletion is delivered later or never collected")
+			r.checkP([]string{"C08", "C04", "C03"}, ok, fnn+"|re-insert cleans both graveyard indexes", c.posStr(fn.Pos()), "inserting a key found in the graveyard deletes it from the graveyard and the graveyard-revision index together", "re-inserting a deleted key does not clean both graveyard indexes together: a stale retained deletion is delivered later or never collected")
 		} else {
 			g1 := find("insert", posGraveyard)
 			g2 := find("insert", posGraveyardRev)
